@@ -267,7 +267,7 @@ class StmtMixin:
         for idx, f in enumerate(lspec.inv(ctx0)):
             self.oblige(st, "%s.entry.%d" % (name, idx), f, kind="loop-entry")
         # 2. arbitrary iteration
-        modified = sorted(self.assigned_names(stmt.body) | self.assigned_names([ast.Expr(stmt.target)]) if False else self.assigned_names(stmt.body))
+        modified = sorted(self.assigned_names(stmt.body) | {n.id for n in ast.walk(stmt.target) if isinstance(n, ast.Name)})
 
         def havoc(s):
             h = s.copy()
@@ -301,6 +301,7 @@ class StmtMixin:
         ctx = LoopCtx(self, it_st, entry, i, seq)
         it_st.assume(*lspec.inv(ctx))
         it_st.path.append("%s:iter" % name)
+        it_st.ghost["i:" + key] = i
         if self.feasible(it_st):
             elem = binder(self, it_st, i) if binder else V("ref", seq[i], self.registry.elem_hint(it))
             for s1, o1 in self.assign(it_st, stmt.target, elem):
@@ -320,6 +321,7 @@ class StmtMixin:
         ctxe = LoopCtx(self, ex_st, entry, z3.Length(seq), seq)
         ex_st.assume(*lspec.inv(ctxe))
         ex_st.path.append("%s:exit" % name)
+        ex_st.ghost["i:" + key] = z3.Length(seq)
         if self.feasible(ex_st):
             out.append((ex_st, NORMAL))
         return out
